@@ -94,6 +94,31 @@ func Run(c *core.Ctx) int {
 			c.Fail("", "presented figures do not re-add under the currency rule: "+strings.Join(errs, "; "), c01.Case{Doc: d})
 			continue
 		}
+		// edit the calculated document and calculate again: the identities must hold on the new figures
+		// too, and nothing of the first calculation may survive in them
+		tries := 2
+		if len(docs) == 1 {
+			tries = len(calcproto.Edits) // replay: every edit
+		}
+		for k := 0; k < tries; k++ {
+			e := c.Rng.Intn(len(calcproto.Edits))
+			if len(docs) == 1 {
+				e = k
+			}
+			a, diff, ok := calcproto.RecalcAfterEdit(inv, e)
+			if !ok {
+				continue
+			}
+			c.Count("recalc-after-edit:"+calcproto.Edits[e].Name, 1)
+			if errs := calcproto.ReaddIdentities(a, sub); len(errs) > 0 {
+				c.Fail("", "after "+calcproto.Edits[e].Name+" and a second calculation the presented figures do not re-add: "+strings.Join(errs, "; "), c01.Case{Doc: d})
+				break
+			}
+			if diff != "" {
+				c.Fail("", "a figure of the first calculation survives the second one: "+diff, c01.Case{Doc: d})
+				break
+			}
+		}
 		if r.Agree && r.Skipped == "" && r.GoErr == "" && r.GoOut != r.Model {
 			c.TieBroken("drive:C03/calc", "Go output differs from the model although the identities hold", c01.Case{Doc: d})
 		}
